@@ -120,7 +120,13 @@ def run(rep, tier, seed):
                                 real=r.results.get(("LR", 0), "")[:200]))
     # one parser instance used for the whole input sequence must answer as fresh parsers do
     n_seq = 0
+    n_seq_skipped = 0
     for tag, r, w in accepted:
+        if any(not str(r.results.get(("LR", i), "")).startswith(("OK", "ERR")) for i in range(len(w))):
+            # some input of the sequence does not return even on a fresh parser (C15's subject, reported there): the
+            # harness loses the whole reused-parser sequence with it, so there is nothing to compare
+            n_seq_skipped += 1
+            continue
         for i in range(len(w)):
             a, b = r.results.get(("LR", i)), r.results.get(("LRS", i))
             if a is None or b is None:
@@ -190,7 +196,7 @@ def run(rep, tier, seed):
              "non-trivial = inputs the real parser accepted (a tree was built and judged by derivation_b)",
         grammars_generated=len(cases), grammars_accepted=len(accepted), grammars_rejected_conflicts=rejected,
         grammars_compiler_error=errors, shapes=shapes,
-        inputs_ok=n_ok, inputs_err=n_err, inputs_other=n_other, partial_pairs_compared=n_partial_pairs, byte_level_partial_pairs_compared=n_byte_pairs, reused_parser_results_compared=n_seq,
+        inputs_ok=n_ok, inputs_err=n_err, inputs_other=n_other, partial_pairs_compared=n_partial_pairs, byte_level_partial_pairs_compared=n_byte_pairs, reused_parser_results_compared=n_seq, reused_parser_sequences_skipped_hang=n_seq_skipped,
         samples=samples)
     rep.assumptions = ["token-level: each terminal is a distinct one-letter string recognizer, tokens separated by "
                        "one space (lexical disambiguation is C06's subject)",
